@@ -224,7 +224,7 @@ static std::vector<std::string> split(const std::string& s, char sep)
   return out;
 }
 
-int main(int argc, char** argv)
+static int run_scenario(int argc, char** argv)
 {
   sg4::Engine e(&argc, argv);
   setvbuf(stdout, nullptr, _IOLBF, 0);
@@ -411,5 +411,56 @@ int main(int argc, char** argv)
   execs.clear();
   comms.clear();
   helpers.clear();
+  return 0;
+}
+
+// Batch mode: `avail --batch DIR N` runs the cases DIR/0 .. DIR/N-1 one after the other, each in a forked child (one Engine per
+// process) whose cwd is the case directory, stdin <- stdin.txt, stdout -> out.txt, stderr -> err.txt, arguments <- args.txt (one per
+// line); the wait status is written to DIR/i/status.txt ("exit RC" | "signal N" | "timeout"). Starting a process costs ~1 s through the
+// framework's runner on a loaded machine: batching keeps the checks affordable.
+#include <fstream>
+#include <sys/wait.h>
+#include <unistd.h>
+int main(int argc, char** argv)
+{
+  if (argc < 4 || std::string(argv[1]) != "--batch")
+    return run_scenario(argc, argv);
+  std::string dir = argv[2];
+  int n           = std::stoi(argv[3]);
+  int budget      = argc > 4 ? std::stoi(argv[4]) : 120;
+  for (int i = 0; i < n; i++) {
+    std::string cd = dir + "/" + std::to_string(i);
+    pid_t pid      = fork();
+    if (pid == 0) {
+      if (chdir(cd.c_str()) != 0 || not freopen("stdin.txt", "r", stdin) || not freopen("out.txt", "w", stdout) ||
+          not freopen("err.txt", "w", stderr))
+        _exit(97);
+      setvbuf(stderr, nullptr, _IONBF, 0); // a reopened stderr is fully buffered: keep what is written before an abort
+      std::vector<std::string> args{argv[0]};
+      std::ifstream af("args.txt");
+      std::string a;
+      while (std::getline(af, a))
+        if (not a.empty())
+          args.push_back(a);
+      std::vector<char*> av;
+      for (auto& x : args)
+        av.push_back(x.data());
+      av.push_back(nullptr);
+      alarm(budget); // wall-clock watchdog of this case only (reported as a timeout, i.e. inconclusive)
+      int rc = run_scenario(static_cast<int>(args.size()), av.data());
+      fflush(stdout);
+      fflush(stderr);
+      _exit(rc);
+    }
+    int st = 0;
+    waitpid(pid, &st, 0);
+    std::ofstream sf(cd + "/status.txt");
+    if (WIFEXITED(st))
+      sf << "exit " << WEXITSTATUS(st) << "\n";
+    else if (WIFSIGNALED(st) && WTERMSIG(st) == SIGALRM)
+      sf << "timeout\n";
+    else if (WIFSIGNALED(st))
+      sf << "signal " << WTERMSIG(st) << "\n";
+  }
   return 0;
 }
